@@ -26,6 +26,7 @@ theorem routeCurly_selected {cfg : Config} {req : Req} {s r : Nat} {ps : Params}
   simp only at h
   split at h
   · simp at h
+  · simp at h
   · rename_i svc sc hsvc
     split at h
     · simp at h
@@ -40,10 +41,7 @@ theorem routeCurly_selected {cfg : Config} {req : Req} {s r : Nat} {ps : Params}
           simp only [Outcome.selected.injEq] at h
           obtain ⟨h1, h2, h3⟩ := h
           subst h3
-          have hsvcmem : svc ∈ cfg.services := by
-            rcases Curly.detectWebService_mem (tokenize req.path) cfg.services none svc sc hsvc with h' | h'
-            · exact h'
-            · simp at h'
+          have hsvcmem : svc ∈ cfg.services := Curly.detectWebService_mem_none E hsvc
           obtain ⟨hmem, hc, hm, hct, hacc⟩ := detectRoute_ok hdet
           obtain ⟨hbuilt, hmatch⟩ := Curly.selectRoutes_mem E hsel hmem
           refine ⟨svc, hsvcmem, rt, hbuilt, ?_, h2, hmatch, hc, hm, hct, hacc, hext⟩
